@@ -595,6 +595,9 @@ def deductive(rep: Report, tier):
              loop_rules={(RSP + "_invert_quat_small", 0): TraceRule(), (RSP + "_invert_quat_small", 1): NsRule()},
              clauses=["returns_square_matrix"], replay=replay_rsp, timeout_s=30)
 
+    # ---------------- CG micro-solver: its success flag is truthful, column by column
+    cg_micro_solver(rep, lib)
+
     # ---------------- CGNE
     for prec in (False, True):
         class CgRule(LoopRule):
@@ -726,6 +729,152 @@ def deductive(rep: Report, tier):
     # canary: a history entry that belongs to the previous iterate is not accepted by the truthfulness clause
     a, b, t = z3.Reals("a b t")
     rep.canary("C13.canary.stale_entry", smt.prove([a >= 0, b >= 0, t >= 0, a <= t], b <= t, 5).status == smt.REFUTED)
+
+
+class ColMat:
+    """r x m quaternion matrix that is only ever written column by column (X[:, j] = x): the columns are kept as ghosts."""
+    qv_value = True
+    ndim = 2
+
+    def __init__(self, r, m):
+        self.shape = (r, m)
+        self.cols = []          # (j, HMat) in write order
+
+    def setitem(self, idx, val):
+        ok = isinstance(idx, tuple) and len(idx) == 2 and isinstance(idx[0], slice) and idx[0] == slice(None) and isinstance(val, HMat)
+        if not ok:
+            raise OutOfReach("write into the solution matrix other than X[:, j] = x")
+        self.cols.append((idx[1], val))
+
+
+def cg_micro_solver(rep: Report, lib0):
+    """_solve_spd_quat (unpreconditioned CG on G X = B, one column at a time) for all sizes, budgets and tolerances:
+       inner loop   rvec == b - Gs x  and  rsold == ||rvec||^2   (Gs the symmetrised G; free algebra, alpha / beta symbolic)
+       outer loop   witness column j*:  once column j* has been processed,  ok  =>  GOOD(j*),
+                    GOOD(j) :<=>  ||B[:, j] - Gs X[:, j]|| <= max(tol, max(1e-6, 10 tol)) * max(1e-16, ||B[:, j]||)  for the x written to X[:, j]
+       hence ok = True at return means every column is solved to that relative residual; ok never turns True again."""
+    from ..values import HMat as _H
+    S_ = RSP + "_solve_spd_quat"
+    lib = mklib()
+    old_zeros = lib.np.table["zeros"]
+
+    def np_zeros(shape, dtype=None):
+        if isinstance(shape, tuple) and len(shape) == 2:
+            return ColMat(shape[0], shape[1])
+        if not isinstance(shape, tuple):
+            z = _H(NC.zero(shape, 1))
+            z.one_dim = True
+            return z
+        return old_zeros(shape, dtype)
+    lib.np.table["zeros"] = np_zeros
+
+    def k_inner(I, args, kwargs):
+        u, v = args
+        if ncm.nc_syntactically_equal(u.p, v.p):
+            return ncm.fro2(u.p)
+        return ncm.trace(u.p.star @ v.p)
+
+    GOOD = z3.Function("GOODcol", z3.IntSort(), z3.BoolSort())
+
+    def thr(tol):
+        return smax(tol, smax(Fraction(1, 10 ** 6), tol * 10))
+
+    class Inner(LoopRule):
+        modifies = ("x", "rvec", "p", "rsold", "ok")
+
+        def establish(self, it, fr, start):
+            c = cur()
+            G, b, x, rv = fr.vars["G"], fr.vars["b"], fr.vars["x"], fr.vars["rvec"]
+            st = ncm.nc_equal_obligation(rv.p, b.p - G.p @ x.p, c.hyps())[0]
+            c.require("inv.establish", st == smt.PROVED, "rvec = b - G x at entry (x = 0)", key="cgm.inner.inv.establish.residual")
+            c.require("inv.establish", req(fr.vars["rsold"], ncm.fro2(rv.p)), "rsold = ||rvec||^2 at entry", key="cgm.inner.inv.establish.rsold")
+
+        def havoc(self, it, fr, k):
+            c = cur()
+            G, b = fr.vars["G"], fr.vars["b"]
+            r = b.shape[0]
+            tag = c.fresh_name("cg")
+            xk = fresh_hmat(f"x@{tag}", r, 1)
+            fr.vars["x"] = xk
+            fr.vars["rvec"] = _H(b.p - G.p @ xk.p)
+            fr.vars["p"] = fresh_hmat(f"p@{tag}", r, 1)
+            fr.vars["rsold"] = ncm.fro2(fr.vars["rvec"].p)
+
+        def preserve(self, it, fr, k):
+            c = cur()
+            G, b, x, rv = fr.vars["G"], fr.vars["b"], fr.vars["x"], fr.vars["rvec"]
+            st, be, secs, wit = ncm.nc_equal_obligation(rv.p, b.p - G.p @ x.p, c.hyps())
+            c.require("inv.preserve", st == smt.PROVED, f"rvec = b - G x after the update {wit}", key="cgm.inner.inv.preserve.residual")
+            c.require("inv.preserve", req(fr.vars["rsold"], ncm.fro2(rv.p)), "rsold = ||rvec||^2 after the update", key="cgm.inner.inv.preserve.rsold")
+
+    class Cols(LoopRule):
+        modifies = ("X", "ok")
+
+        def fact(self, fr, j):
+            jw = cur().ghost["jw"]
+            ok = fr.vars["ok"]
+            okz = ok if isinstance(ok, SBool) else bool(ok)
+            return sor(snot(jw < j), snot(okz), SBool(GOOD(SInt.lift(jw))))
+
+        def establish(self, it, fr, start):
+            cur().require("inv.establish", self.fact(fr, start), "no column processed yet", key="cgm.cols.inv.establish")
+
+        def havoc(self, it, fr, j):
+            c = cur()
+            okv = SBool(z3.Bool(c.fresh_name("ok")))
+            fr.vars["ok"] = okv
+            c.assume(self.fact(fr, j))
+            c.ghost["ok_head"] = okv
+            c.ghost["col_j"] = j
+
+        def preserve(self, it, fr, j):
+            c = cur()
+            g = c.ghost
+            X, G, B, tol = fr.vars["X"], fr.vars["G"], fr.vars["B"], fr.vars["tol"]
+            ok_new = fr.vars["ok"]
+            okz = ok_new if isinstance(ok_new, SBool) else bool(ok_new)
+            c.require("inv.preserve", sor(snot(okz), g["ok_head"]), "the flag never turns True again", key="cgm.cols.inv.preserve.flag_monotone")
+            wrote = [cv for (cj, cv) in X.cols if cj is j or (isinstance(cj, SInt) and isinstance(j, SInt) and cj.z.eq(j.z))]
+            c.require("inv.preserve", len(wrote) == 1 and len(X.cols) == 1, "exactly column j of X is written in iteration j", key="cgm.cols.inv.preserve.one_column_written")
+            if len(wrote) == 1:
+                xj = wrote[0]
+                bj = B.getitem((slice(None), slice(j, j + 1)))
+                res = ssqrt(ncm.fro2(bj.p - G.p @ xj.p))
+                bn = smax(Fraction(1, 10 ** 16), ssqrt(ncm.fro2(bj.p)))
+                # naming: GOOD(j) is the statement about the column just written
+                c.assume(SBool(GOOD(SInt.lift(j))) == (res <= thr(tol) * bn))
+                c.require("inv.preserve", sor(snot(okz), SBool(GOOD(SInt.lift(j)))), "ok after column j implies that column j is solved to the stated relative residual", key="cgm.cols.inv.preserve.flag_truthful", timeout_s=60)
+            c.require("inv.preserve", self.fact(fr, j + 1), "witness column", key="cgm.cols.inv.preserve.witness")
+
+    def setup(I, ctx):
+        r, m = dims(ctx, "r", "m")
+        G0 = fresh_hmat("G0", r, r)
+        B = fresh_hmat("B", r, m)
+        tol, K = SReal.var("tol"), SInt.var("max_iter")
+        ctx.assume(sand(tol >= 0, K >= 0), base=True)
+        jw = SInt.var("jw")
+        ctx.assume(sand(jw >= 0, jw < m), base=True)
+        ctx.ghost["jw"] = jw
+        _H.column_atoms = True
+        slf = mk_self(I, "RandomizedSketchProjectPseudoinverse", block_size=4, max_iter=10, tol=Fraction(1, 1000), test_sketch_size=8, verbose=False, seed=None, column_solver="spd")
+        return [slf, G0, B], dict(tol=tol, max_iter=K), dict(jw=jw)
+
+    def post(I, ctx, outcome, val, aux):
+        if outcome == "loop_end":
+            return []
+        if outcome != "return" or not (isinstance(val, tuple) and len(val) == 2):
+            return [("returns_solution_and_flag", False)]
+        X, ok = val
+        okz = ok if isinstance(ok, SBool) else bool(ok)
+        return [("returns_solution_and_flag", isinstance(X, ColMat)),
+                ("ok_implies_every_column_solved", sor(snot(okz), SBool(GOOD(SInt.lift(aux["jw"])))))]
+    contracts = dict(ALGEBRA)
+    contracts[S_ + ".<real_inner>"] = k_inner
+    try:
+        run_case(rep, P, S_, "flag", setup, post, lib=lib, contracts=contracts, loop_rules={(S_, 1): Cols(), (S_, 2): Inner()},
+                 clauses=["returns_solution_and_flag", "ok_implies_every_column_solved"], replay=replay_rsp, timeout_s=60, max_paths=600)
+    finally:
+        _H.column_atoms = False
 
 
 # ----------------------------------------------------------------------------------------------------
